@@ -71,7 +71,7 @@ def unitvec(v):
     v = getvector(v)
     n = norm(v)
 
-    if n > 100 * _eps:  # if greater than eps
+    if n >= 10 * _eps:  # same zero threshold as iszerovec
         return v / n
     else:
         return None
@@ -101,7 +101,7 @@ def unitvec_norm(v):
     v = getvector(v)
     n = np.linalg.norm(v)
 
-    if n > 100 * _eps:  # if greater than eps
+    if n >= 10 * _eps:  # same zero threshold as iszerovec
         return (v / n, n)
     else:
         return None
